@@ -122,9 +122,10 @@ def run(ctx):
             n_q += 1
             conv, arith = [], []
             for n in ast.walk(f2.node):
-                if isinstance(n, ast.Call) and ast.unparse(n.func).split('.')[-1] in ('get_value', 'cast_value') and n.args \
-                        and isinstance(n.args[0], ast.Name) and n.args[0].id == pn:
-                    conv.append(n)
+                if isinstance(n, ast.Call) and ast.unparse(n.func).split('.')[-1] in ('get_value', 'cast_value'):
+                    first_arg = n.args[0] if n.args else next((k.value for k in n.keywords if k.arg == 'value'), None)
+                    if isinstance(first_arg, ast.Name) and first_arg.id == pn:
+                        conv.append(n)
                 if isinstance(n, (ast.BinOp, ast.Compare, ast.UnaryOp)):
                     if any(isinstance(c, ast.Name) and c.id == pn for c in ast.iter_child_nodes(n)):
                         arith.append(n)
